@@ -1528,3 +1528,76 @@ pub fn rows_position(rng: &mut Rng) -> [u8; 64] {
     }
     c
 }
+
+/// "push-back" family for the confined driver: a rabbit of side A with a stronger piece of side B two squares
+/// ahead of it on the same file (the rabbit can advance next to it, B can push it back and return), and a second
+/// piece of A - sometimes of B too - with a small area of its own to shuffle in.  Positions recur although a rabbit
+/// advances in every cycle, and turns of A that use all four steps contain a rabbit advance.
+pub fn pushback_position(rng: &mut Rng) -> Option<([u8; 64], Vec<usize>)> {
+    let a = rng.below(2) as u8; // owner of the rabbit: 0 gold, 1 silver
+    let f = rng.below(8);
+    // ranks as row indices (0 = rank 8); gold moves towards row 0
+    let (x, x1, x2) = if a == 0 {
+        let r = 3 + rng.below(4); // rows 3..6 -> the advance reaches rows 2..5
+        (r * 8 + f, (r - 1) * 8 + f, (r - 2) * 8 + f)
+    } else {
+        let r = 1 + rng.below(4);
+        (r * 8 + f, (r + 1) * 8 + f, (r + 2) * 8 + f)
+    };
+    if [x, x1, x2].iter().any(|q| TRAPS.contains(q)) {
+        return None;
+    }
+    let mut c = [0u8; 64];
+    c[x] = 1 + 6 * a;
+    c[x2] = 2 + rng.below(5) as u8 + 6 * (1 - a);
+    let mut region = vec![x, x1, x2];
+    // shuffle areas: 1x2, 2x1, 1x3, 3x1 or 2x2 rectangles away from the column and from each other
+    let owners: Vec<u8> = if rng.chance(0.5) { vec![a] } else { vec![a, 1 - a] };
+    for &o in owners.iter() {
+        let mut done = false;
+        for _ in 0..60 {
+            let (h, w) = [(1usize, 2usize), (2, 1), (1, 3), (3, 1), (2, 2)][rng.below(5)];
+            let r0 = rng.below(9 - h);
+            let f0 = rng.below(9 - w);
+            let mut area = Vec::new();
+            for r in r0..r0 + h {
+                for ff in f0..f0 + w {
+                    area.push(r * 8 + ff);
+                }
+            }
+            let clear = area.iter().all(|&q| {
+                !TRAPS.contains(&q) && c[q] == 0 && region.iter().all(|&p| (p / 8).abs_diff(q / 8) + (p % 8).abs_diff(q % 8) >= 2)
+            });
+            if !clear {
+                continue;
+            }
+            let t = 2 + rng.below(5) as u8;
+            if c.contains(&(t + 6 * o)) && COMPLEMENT[t as usize] == 1 {
+                continue;
+            }
+            c[area[rng.below(area.len())]] = t + 6 * o;
+            region.extend(area);
+            done = true;
+            break;
+        }
+        if !done {
+            return None;
+        }
+    }
+    // B's rabbit, far from everything
+    let v = 1 + 6 * (1 - a);
+    let mut ok = false;
+    for _ in 0..80 {
+        let i = 8 + rng.below(48);
+        let far = region.iter().all(|&p| (p / 8).abs_diff(i / 8) + (p % 8).abs_diff(i % 8) >= 3);
+        if c[i] == 0 && far && !TRAPS.contains(&i) {
+            c[i] = v;
+            ok = true;
+            break;
+        }
+    }
+    if !ok || !legal_position(&c) {
+        return None;
+    }
+    Some((c, region))
+}
